@@ -7,7 +7,8 @@ symbolic backing string: to_owned / bytes / ascii / to_dna_string / Display / De
 starts, lengths across word boundaries and both strands equal the substring's (bit-for-bit canonical DnaString for
 to_owned), and == is decided by comparing every view position, over same / different backing strings; the Hamming
 distance covers every position exactly once, compares self with other at equal view positions, for lengths across block
-boundaries and for forward / reverse-complemented / mixed operands."""
+boundaries and for forward / reverse-complemented / mixed operands.
+Added later: exact Hamming lemmas on symbolic backing strings (whole blocks; whole string against a prefix of a longer one), override table of the k-mer iterators."""
 from .. import dt_seq, lemmas
 
 ASSUMPTIONS = ["coordinates do not overflow usize"]
